@@ -185,6 +185,56 @@ pub fn byte_families(level: u32, seed: u64) -> Vec<Family> {
             }
         }
     }
+    // substring families: random subsets of the substrings (length <= 7) of a base word and a few
+    // point-mutated copies of it. Suffixes of patterns are prefixes of other patterns everywhere, so
+    // fail chains of two and three hops through terminal and non-terminal states, with several
+    // children per state, occur in all combinations - shapes that random dictionaries produce about
+    // once in a million small sets
+    let n_sub = if level >= 1 { 1500 } else { 400 };
+    for fi in 0..n_sub {
+        let mut x = (seed ^ 0xabcdef).wrapping_add(fi as u64).wrapping_mul(0x9e37_79b9_7f4a_7c15) | 1;
+        let mut next = || {
+            x ^= x << 13;
+            x ^= x >> 7;
+            x ^= x << 17;
+            (x >> 20) as usize
+        };
+        let sigma = 3 + fi % 5; // 3..7 letters
+        let letters: Vec<u8> = (0..sigma).map(|i| [b'a', b'b', b'c', b'd', b'x', b'y', b'z'][i]).collect();
+        let wl = 7 + fi % 4;
+        let base: Vec<u8> = (0..wl).map(|_| letters[next() % sigma]).collect();
+        let mut words = vec![base.clone()];
+        for _ in 0..(2 + fi % 3) {
+            let mut w = base.clone();
+            for _ in 0..(1 + next() % 2) {
+                let p = next() % w.len();
+                w[p] = letters[next() % sigma];
+            }
+            words.push(w);
+        }
+        let mut set = std::collections::BTreeSet::new();
+        for w in &words {
+            for i in 0..w.len() {
+                for j in i + 1..=w.len().min(i + 7) {
+                    // keep few short substrings (a short pattern kills the leftmost structure
+                    // below it) and about 40% of the longer ones; every third family keeps no
+                    // single letters at all
+                    let l = j - i;
+                    let keep = match l {
+                        1 => fi % 3 != 0 && next() % 10 < 1,
+                        2 => next() % 20 < 3,
+                        _ => next() % 5 < 2,
+                    };
+                    if keep {
+                        set.insert(w[i..j].to_vec());
+                    }
+                }
+            }
+        }
+        if set.len() >= 4 {
+            v.push(fam(&format!("substr_{fi}_s{sigma}_w{wl}"), set.into_iter().collect()));
+        }
+    }
     if level >= 1 {
         v.push(fam("prod_0..64x0..256", product(&all[..64], &all)));
         v.push(fam("lcg_b", lcg_set(seed ^ 0x9876, 6000, 5, &all)));
@@ -201,6 +251,88 @@ pub fn byte_families(level: u32, seed: u64) -> Vec<Family> {
             }
         }
         v.push(fam("comb_256x3x4", comb2));
+    }
+    v
+}
+
+
+/// Fail-chain shape grid for the leftmost kinds: a state P = u.v.t whose suffix chain runs over the
+/// non-terminal v.t to the pattern t, with two children c1 and c of P (one that dead-ends on the
+/// chain, one that resolves below v.t), a grandchild that resolves only below t.c, and the patterns
+/// that make those nodes exist: { u.v.t.c1, u.v.t.c.d.z, v.t.c.w, t, t.c.d }. Every assignment of the
+/// eight roles to `sigma` letters is generated (degenerate assignments included - they give other
+/// shapes of the same size).
+pub fn fail_chain_grid(sigma: usize) -> Vec<Family> {
+    let letters = [b'a', b'b', b'c', b'd', b'x', b'y'];
+    let mut v = Vec::new();
+    let total = sigma.pow(8);
+    for code in 0..total {
+        let mut r = [0u8; 8];
+        let mut k = code;
+        for x in r.iter_mut() {
+            *x = letters[k % sigma];
+            k /= sigma;
+        }
+        let [u, vv, t, c1, c, d, z, w] = r;
+        let mut set = std::collections::BTreeSet::new();
+        set.insert(vec![u, vv, t, c1]);
+        set.insert(vec![u, vv, t, c, d, z]);
+        set.insert(vec![vv, t, c, w]);
+        set.insert(vec![t]);
+        set.insert(vec![t, c, d]);
+        if set.len() == 5 {
+            v.push(Family {
+                name: format!("failchain_{sigma}_{code}"),
+                pats: set.into_iter().collect(),
+                utf8: true,
+            });
+        }
+    }
+    v
+}
+
+/// Families for the leftmost kinds only (the layout is irrelevant there, so they are built with the
+/// default settings only): sparse mutant families.
+pub fn leftmost_shape_families(level: u32, seed: u64) -> Vec<Family> {
+    let mut v: Vec<Family> = Vec::new();
+    // sparse mutant families: a base word of 6-7 letters and 6-12 copies with one or two letters
+    // replaced; a pattern is a prefix-cut or an infix of one of the words, chosen sparsely, so that
+    // most suffixes of a pattern are *not* themselves prefixes of patterns (fail chains that dead-end
+    // for one child and resolve two hops down for its sibling)
+    let n_sparse = if level >= 1 { 60_000 } else { 20_000 };
+    for fi in 0..n_sparse {
+        let mut x = (seed ^ 0x51ab_7e55).wrapping_add(fi as u64 * 7919).wrapping_mul(0x9e37_79b9_7f4a_7c15) | 1;
+        let mut next = || {
+            x ^= x << 13;
+            x ^= x >> 7;
+            x ^= x << 17;
+            (x >> 20) as usize
+        };
+        let sigma = 4 + fi % 6; // 4..9 letters
+        let letters: Vec<u8> = (0..sigma).map(|i| [b'a', b'b', b'c', b'd', b'q', b'w', b'x', b'y', b'z'][i]).collect();
+        let wl = 6 + fi % 2;
+        let base: Vec<u8> = (0..wl).map(|_| letters[next() % sigma]).collect();
+        let mut words = vec![base.clone()];
+        for _ in 0..(6 + fi % 7) {
+            let mut w = base.clone();
+            for _ in 0..(1 + next() % 2) {
+                let p = next() % w.len();
+                w[p] = letters[next() % sigma];
+            }
+            words.push(w);
+        }
+        let mut set = std::collections::BTreeSet::new();
+        for w in &words {
+            // one or two infixes per word: [i..j) with random i, j
+            for _ in 0..(1 + next() % 2) {
+                let i = next() % (w.len() - 1);
+                let j = i + 1 + next() % (w.len() - i);
+                set.insert(w[i..j.min(w.len())].to_vec());
+            }
+        }
+        if set.len() >= 4 {
+            v.push(fam(&format!("sparse_{fi}_s{sigma}_w{wl}"), set.into_iter().collect()));
+        }
     }
     v
 }
